@@ -424,6 +424,28 @@ func genConc(prop string, seed uint64, tier string) *ConcScenario {
 			ph.Tasks = append(ph.Tasks, prog)
 			steps += no * 25
 		}
+		if prop == "C06" && cacheFam && g.r.Bool(0.3) {
+			// the clock moves while removers and writers are in flight: entries
+			// with tiny TTLs expire between (and inside) overlapping passes
+			for t := range ph.Tasks {
+				for i := range ph.Tasks[t] {
+					op := &ph.Tasks[t][i]
+					switch op.K {
+					case CSet, CGetOrSet, CGetAndSet, CGetOrCompute:
+						if g.r.Bool(0.7) {
+							op.D = int64(1 + g.r.Intn(4))
+						}
+					}
+				}
+			}
+			var clk []Op
+			for i := 0; i < 2+g.r.Intn(5); i++ {
+				clk = append(clk, Op{K: XTick, D: int64(1 + g.r.Intn(5))})
+			}
+			ph.Tasks = append(ph.Tasks, clk)
+			ph.Tasks = append(ph.Tasks, []Op{{K: CDeleteExpired}, {K: CDeleteExpired}})
+			nt = len(ph.Tasks)
+		}
 		if g.r.Bool(0.3) {
 			ph.Delays = append(ph.Delays, DelayCfg{Task: g.r.Intn(nt), AtStep: 1 + g.r.Intn(40)})
 		}
@@ -441,6 +463,9 @@ func genConc(prop string, seed uint64, tier string) *ConcScenario {
 			ph.Stall = st
 		}
 		sc.Phases = append(sc.Phases, ph)
+	}
+	if prop == "C06" && cacheFam && g.r.Bool(0.25) {
+		g.c06MovingClock(sc)
 	}
 	switch prop {
 	case "C05":
@@ -742,6 +767,47 @@ func (g *genCtx) c16Workload(sc *ConcScenario, hot int) {
 			prog = append(prog, Op{K: MStore, Key: k + 40, Val: g.val()})
 		}
 		ph.Optional = append(ph.Optional, len(ph.Tasks))
+		ph.Tasks = append(ph.Tasks, prog)
+	}
+}
+
+// c06MovingClock: overlapping removers while the clock ticks. Entries with
+// TTLs of a few nanoseconds expire between and inside the passes, so a later
+// pass removes entries an earlier, still delivering pass never saw.
+func (g *genCtx) c06MovingClock(sc *ConcScenario) {
+	sc.CBKind = 1
+	if g.r.Bool(0.6) {
+		sc.CBKind = 3 // slow callback: its first invocation stalls until nobody else can move
+	}
+	sc.Phases = sc.Phases[:1]
+	ph := &sc.Phases[0]
+	ph.Tasks, ph.Delays, ph.Stall = nil, nil, nil
+	nk := 4 + g.r.Intn(4)
+	sc.Setup = nil
+	for k := 0; k < nk; k++ {
+		sc.Setup = append(sc.Setup, Op{K: CSet, Key: k, Val: g.val(), D: int64(1 + g.r.Intn(4))})
+	}
+	var clk []Op
+	for i := 0; i < 3+g.r.Intn(5); i++ {
+		clk = append(clk, Op{K: XTick, D: int64(1 + g.r.Intn(3))})
+	}
+	ph.Tasks = append(ph.Tasks, clk)
+	for i := 0; i < 2+g.r.Intn(2); i++ {
+		ph.Tasks = append(ph.Tasks, []Op{{K: CDeleteExpired}, {K: CDeleteExpired}})
+	}
+	for i := 0; i < 1+g.r.Intn(2); i++ {
+		var prog []Op
+		for j := 0; j < 2+g.r.Intn(4); j++ {
+			k := g.r.Intn(nk)
+			switch g.r.Intn(6) {
+			case 0:
+				prog = append(prog, Op{K: CDelete, Key: k})
+			case 1:
+				prog = append(prog, Op{K: CGetAndDelete, Key: k})
+			default:
+				prog = append(prog, Op{K: CSet, Key: k, Val: g.val(), D: int64(1 + g.r.Intn(4))})
+			}
+		}
 		ph.Tasks = append(ph.Tasks, prog)
 	}
 }
